@@ -513,10 +513,11 @@ class Bus {
       // the adapter writes the address right after the SYN; resolved against a foreign master in pump()/settle
       enhArbPending = true;     // resolved in pump(): against a foreign master starting in this slot, or alone
     }
-    if (gluePct > 0 && !enhanced && rng && (int)rng->below(100) < gluePct) glueFollowing(rx0, horizon);
+    if (gluePct > 0 && (!enhanced || enhArbAddr == 0xAA) && rng && (int)rng->below(100) < gluePct) glueFollowing(rx0, horizon);
   }
-  int gluePct = 0;              // plain device: chance (percent) that a SYN reaches the host in one read together with the first symbols of
-                                // the telegram another master starts right after it (serial/USB/network latency: the host cannot arbitrate)
+  int gluePct = 0;              // chance (percent) that a SYN reaches the host in one read together with the first symbols of the telegram
+                                // another master starts right after it (serial/USB/network latency: the host cannot arbitrate; on the
+                                // enhanced device only while the adapter has no arbitration request of the host)
   long glued = 0;
   void glueFollowing(size_t rx0, int64_t horizon) {
     if (itemPos != 0 || pendingGap || hostArbPending) return;
